@@ -118,6 +118,44 @@ def strictSample : Program :=
             (block [.assign "b" (.bin .gt (.bin .div (v "d") (lit 2)) (lit 4))]) .nil))
         (block [.assign "b" (.blit false)])] }
 
+/-- Stage S3, inside the guard: an array filled in a FOR loop, a computed subscript, struct fields.
+```
+ar : ARRAY[0..3] OF INT; sv : Rec0 (f0 : DINT; f1 : BOOL); i : INT; d : DINT := 2;
+FOR i := INT#0 TO INT#3 DO ar[i] := i * INT#2; END_FOR;
+sv.f0 := d + 5;
+sv.f1 := ar[i - INT#1] = INT#6;
+d := sv.f0 + DINT#1;
+ar[-0] := ar[3];
+```
+-/
+def s3Sample : Program :=
+  { decls := [decl "i" (.int .int), decl "d" (.int .dint) 2],
+    aggs := [("ar", .arr 0 3 (.int .int)), ("sv", .str "Rec0" [("f0", .int .dint), ("f1", .bool)])],
+    body := block [
+      .for "i" (.lit (some .int) 0) (.lit (some .int) 3) none (block [
+        .assignIdx "ar" (v "i") (.bin .mul (v "i") (.lit (some .int) 2))]),
+      .assignFld "sv" "f0" (.bin .add (v "d") (lit 5)),
+      .assignFld "sv" "f1" (.bin .eq (.idx "ar" (.bin .sub (v "i") (.lit (some .int) 1))) (.lit (some .int) 6)),
+      .assign "d" (.bin .add (.fld "sv" "f0") (.lit (some .dint) 1)),
+      .assignIdx "ar" (.un .neg (.lit none 0)) (.idx "ar" (lit 3))] }
+
+/-- Stage S3, inside the guard, one past the end: `FOR i := INT#0 TO INT#4 DO ar[i] := i; END_FOR;` -/
+def s3OutOfBounds : Program :=
+  { decls := [decl "i" (.int .int)],
+    aggs := [("ar", .arr 0 3 (.int .int))],
+    body := block [
+      .for "i" (.lit (some .int) 0) (.lit (some .int) 4) none (block [.assignIdx "ar" (v "i") (v "i")])] }
+
+/-- `u : ULINT := 9223372036854775807; x : DINT; ar : ARRAY[-2..2] OF DINT;
+u := u * ULINT#2; ar[u] := DINT#7; x := ar[u];` -/
+def indexUlintCast : Program :=
+  { decls := [{ name := "u", ty := .int .ulint, init := 9223372036854775807, typedInit := true },
+              decl "x" (.int .dint)],
+    aggs := [("ar", .arr (-2) 2 (.int .dint))],
+    body := block [.assign "u" (.bin .mul (v "u") (.lit (some .ulint) 2)),
+      .assignIdx "ar" (v "u") (.lit (some .dint) 7),
+      .assign "x" (.idx "ar" (v "u"))] }
+
 def init (p : Program) : RunState := { store := p.initStore }
 
 /-- Outcome and variables after the first cycle from the initial store. -/
